@@ -65,6 +65,8 @@ type nsenv = (str * str) list
 
 val prefix_of : nsenv -> str -> str
 
+val nsprefix : nsenv -> str -> str
+
 val tag_of : nsenv -> qname -> str
 
 val sXMLNSCOLON : str
